@@ -66,6 +66,10 @@ CLAIMED = {
          'HOF expansions and sort: for all sequences, keys and function items. Closures / calls / partial application: the reference semantics C16.Model.eval is an executable specification evaluated by vm_compute and compared with the implementation on generated programs (closures created in for/let scopes, factories, calls in any order and number) - PARTIAL: it is not a model of the token machinery (XPathFunction.__call__, to_partial_function), named function references and collations are observed only. Partial application of shared function items is a known finding; two closure defects were fixed in /repo.',
          'Trusted: Coq kernel; hand transcription of the HOF loops; Python sorted() stable; harness rendering. No axioms.',
          'DESIGN.md §6 C16'),
+ 'C12': ('Coq proofs: a derivative matcher decides the XSD set-of-strings semantics (all expressions, all strings); bounded quantifiers; the CharacterClass algebra of the code (positive / negated subsets, negated-escape intersection, complement, nested subtraction; UnicodeSubset operations = the proved C13 model) computes the denoted set for every class expression and code point, hence matching with the code-computed classes = XSD matching; analyze-string partition lemma. Correspondence: random expressions rendered to text -> translate_pattern -> Python re vs the Coq matcher',
+         'Matcher, quantifiers, class algebra: for all inputs. C12_same_language is PARTIAL: proved under escapes_faithful - it is refuted for \\w \\W \\s \\S outside a class, which the code hands to Python re (known finding, pinned by two tests of the suite). What a translated text matches in Python re is observed, not proved. Validity (RegexError) is checked on corpora only; back-references, lazy quantifiers, flags i/m are outside the model. Six defects were fixed in /repo.',
+         'Trusted: Coq kernel; Python re; Gen/C12Sets.v (unicodedata for \\d \\w \\s \\p{..}, implementation tables for \\i \\c, Python re probes for py_w py_s); harness rendering of expressions. No axioms.',
+         'DESIGN.md §6 C12'),
 }
 
 NOT_YET = {}
